@@ -200,7 +200,7 @@ class Field(WeightedGraph):
         adj = self.to_coo_matrix() + dia_matrix(
             (np.ones(self.V), 0), (self.V, self.V))
         rows = adj.tolil().rows
-        hneighb = np.array([row[self.field[row].argmax()] for row in rows])
+        hneighb = np.array([row[self.field[row, refdim].argmax()] for row in rows])
         return hneighb
 
     def erosion(self, nbiter=1):
@@ -333,7 +333,7 @@ class Field(WeightedGraph):
         sf = self.subfield(self.field[:, refdim] >= th)
 
         # compute the basins
-        hneighb = sf.highest_neighbor()
+        hneighb = sf.highest_neighbor(refdim)
         edges = np.vstack((hneighb, np.arange(sf.V))).T
         edges = np.vstack((edges, np.vstack((np.arange(sf.V), hneighb)).T))
         aux = Graph(sf.V, edges.shape[0], edges)
